@@ -190,40 +190,55 @@ def build() -> Check:
               any(g.dominates(f.idx, s.idx) for f in fetch),
               "fetch_paginated_operations does not dominate executor.submit(func, ...)", where=g.loc(s))
     fpo = prog.func("state", "ExecutionState.fetch_paginated_operations")
-    loops = [n for n in ast.walk(fpo.node) if isinstance(n, ast.While)]
-    ok_loop = False
-    detail = "no `while <marker>` loop"
-    for lp in loops:
-        marker = lp.test.id if isinstance(lp.test, ast.Name) else None
-        if marker is None:
+    # the pagination loop, by interpretation: pages are requested with the marker of the previous page until the marker is exhausted
+    from sa.protocol import make_real_state
+    from sa.values import Sym as _Sym, TypeRef as _TypeRef
+
+    def h_page(it, recv, args, kwargs, node):
+        if "service_client" not in recv.key():
+            return NotImplemented
+        n_ = sum(1 for e in it.events if e.kind == "PAGE") + 1
+        it.emit("PAGE", node, n=n_, marker=kwargs.get("next_marker", args[2] if len(args) > 2 else _Sym("?")).key(),
+                token=kwargs.get("checkpoint_token", _Sym("?")).key())
+        return _Sym(f"page#{n_}", _TypeRef(classes=(prog.cls("lambda_service", "StateOutput").fq,)))
+
+    def kw_f(it, state):
+        return {"initial_operations": _Sym("initial_operations", _TypeRef(prim="ext:list")), "checkpoint_token": _Sym("token", _TypeRef(prim="str")),
+                "next_marker": _Sym("marker0", _TypeRef(prim="str", optional=True))}
+
+    ptr = pm.run_function(fpo, lambda it, state: make_real_state(it, prog), kw_f, cell=("fetch_paginated_operations", ""),
+                          ext_method_hooks={"get_execution_state": h_page}, while_iters=3)
+    badp = []
+    n_pages = 0
+    for t in ptr:
+        pages = t.kinds("PAGE")
+        n_pages += len(pages)
+        d = dict(t.pc)
+        prev = "marker0"
+        for p_ in pages:
+            if p_.data["marker"] != prev:
+                badp.append((f"page {p_.data['n']} is requested with marker {p_.data['marker']}, expected {prev}", t))
+            if p_.data["token"] != "token":
+                badp.append((f"page {p_.data['n']} is requested with token {p_.data['token']}", t))
+            prev = f"page#{p_.data['n']}.next_marker"
+        if t.kinds("LOOP_CUT"):
             continue
-        calls = [c for c in ast.walk(lp) if isinstance(c, ast.Call) and isinstance(c.func, ast.Attribute)
-                 and c.func.attr == "get_execution_state"]
-        passes = any(any(kw.arg == "next_marker" and isinstance(kw.value, ast.Name) and kw.value.id == marker
-                         for kw in c.keywords) or any(isinstance(a, ast.Name) and a.id == marker for a in c.args)
-                     for c in calls)
-        outvars = set()
-        for st in lp.body:
-            if isinstance(st, (ast.Assign, ast.AnnAssign)) and isinstance(st.value, ast.Call) and st.value in calls:
-                t = st.targets[0] if isinstance(st, ast.Assign) else st.target
-                if isinstance(t, ast.Name):
-                    outvars.add(t.id)
-        reassigned = any(
-            isinstance(st, ast.Assign) and isinstance(st.targets[0], ast.Name) and st.targets[0].id == marker
-            and isinstance(st.value, ast.Attribute) and st.value.attr == "next_marker"
-            and isinstance(st.value.value, ast.Name) and st.value.value.id in outvars
-            for st in lp.body
-        )
-        collected = any(
-            isinstance(c, ast.Call) and isinstance(c.func, ast.Attribute) and c.func.attr in ("extend", "append")
-            and c.args and isinstance(c.args[0], ast.Attribute) and c.args[0].attr == "operations"
-            for c in ast.walk(lp)
-        )
-        early = [n for st in lp.body for n in ast.walk(st) if isinstance(n, (ast.Break, ast.Return))]
-        ok_loop = passes and reassigned and collected and not early
-        detail = f"marker passed={passes} reassigned-from-response={reassigned} page-collected={collected} early-exit-statements={len(early)}" \
-            + (" (the loop must run until the marker is exhausted: an empty page may still carry a marker)" if early else "")
-    ck.ob("R4.pagination-loop", fn_construct(fpo), ok_loop, detail)
+        # the loop may only end once the current marker is known to be exhausted
+        exhausted = d.get(f"truthy({prev})") is False or d.get(f"{prev} is None") is True
+        if not exhausted:
+            badp.append((f"the history load stops after {len(pages)} page(s) although the marker {prev} was not found exhausted "
+                         "(an empty page may still carry a marker; later pages hold completed operations that would be re-executed)", t))
+        if t.outcome != "return":
+            badp.append((f"history load raises {t.exc_class()}", t))
+    ck.floor("pagination_paths", len(ptr), 3)
+    ck.ob("R4.pagination-until-exhausted", fn_construct(fpo), not badp, (badp[0][0]) if badp else f"{len(ptr)} paths, {n_pages} page requests")
+    loops = [n for n in ast.walk(fpo.node) if isinstance(n, ast.While)]
+    collected = any(
+        isinstance(c, ast.Call) and isinstance(c.func, ast.Attribute) and c.func.attr in ("extend", "append")
+        and c.args and isinstance(c.args[0], ast.Attribute) and c.args[0].attr == "operations"
+        for lp in loops for c in ast.walk(lp)
+    )
+    ck.ob("R4.pagination-loop", fn_construct(fpo), collected and bool(loops), f"every fetched page must be collected inside the loop (loops={len(loops)}, page-collected={collected})")
     # the merged map is keyed by the operation's own id and fed from the collected pages + the initial page
     upd = [c for c in ast.walk(fpo.node) if isinstance(c, ast.Call) and isinstance(c.func, ast.Attribute)
            and c.func.attr == "update" and isinstance(c.func.value, ast.Attribute) and c.func.value.attr == "operations"]
